@@ -1,6 +1,7 @@
 package main
 
 import (
+	"sync"
 	"fmt"
 	"os"
 	"runtime"
@@ -196,6 +197,81 @@ func runC14(res *Result, d *Driver, tier string, seed uint64) {
 		res.Case(fmt.Sprintf("symlink %v %d", fate, it), true, "symlink-batch")
 		if len(bad) > 0 {
 			res.Mismatch(Mismatch{Kind: "oracle", What: "Symlink/Delete results aligned with the request (C14)", Input: fmt.Sprint(links), Impl: strings.Join(bad, "; "), Oracle: "violates"})
+		}
+	}
+
+	// ---- part A': the same batches from several callers at once on ONE environment: every result must still belong to its own item
+	{
+		var wg sync.WaitGroup
+		var mu sync.Mutex
+		var badC []string
+		perCaller := 200
+		if tier == "thorough" {
+			perCaller = 300
+		}
+		for g := 0; g < 8; g++ {
+			wg.Add(1)
+			go func(g int) {
+				defer wg.Done()
+				for it := 0; it < perCaller; it++ {
+					// four items per call; items 1 and 3 fail in Open batches (missing directory), items 0 and 2 in Symlink batches (name taken)
+					if g%2 == 0 {
+						cmds := []container.OpenCmd{
+							{Path: fmt.Sprintf("/w/c%d_a", g), Flag: os.O_CREATE | os.O_WRONLY, Perm: 0644},
+							{Path: fmt.Sprintf("/w/nodir%d/x", g), Flag: os.O_CREATE | os.O_WRONLY, Perm: 0644},
+							{Path: fmt.Sprintf("/w/c%d_b", g), Flag: os.O_CREATE | os.O_WRONLY, Perm: 0644},
+							{Path: fmt.Sprintf("/w/nodir%d/y", g), Flag: os.O_RDONLY},
+						}
+						rs, err := env.Open(cmds)
+						ok := err == nil && len(rs) == 4 && rs[0].Err == nil && rs[0].File != nil && rs[1].Err != nil && rs[2].Err == nil && rs[2].File != nil && rs[3].Err != nil
+						for _, r := range rs {
+							if r.File != nil {
+								r.File.Close()
+							}
+						}
+						if !ok {
+							mu.Lock()
+							badC = append(badC, fmt.Sprintf("caller %d Open: err=%v results=%v", g, err, rs))
+							mu.Unlock()
+						}
+					} else {
+						taken := fmt.Sprintf("/w/taken%d", g)
+						fresh1, fresh2 := fmt.Sprintf("/w/f%d_%d_1", g, it), fmt.Sprintf("/w/f%d_%d_2", g, it)
+						if it == 0 {
+							env.Symlink([]container.SymbolicLink{{LinkPath: taken, Target: "/w/t"}})
+						}
+						// callers differ in which positions fail, so that a reply taken from another caller is visible
+						links := []container.SymbolicLink{{LinkPath: taken, Target: "/w/t"}, {LinkPath: fresh1, Target: "/w/t"}, {LinkPath: taken, Target: "/w/t"}, {LinkPath: fresh2, Target: "/w/t"}}
+						wantFail := []bool{true, false, true, false}
+						if g%4 == 3 {
+							links = []container.SymbolicLink{links[1], links[0], links[3], links[2], links[0]}
+							wantFail = []bool{false, true, false, true, true}
+						}
+						errs, err := env.Symlink(links)
+						ok := err == nil && len(errs) == len(links)
+						for k := 0; ok && k < len(links); k++ {
+							ok = (errs[k] != nil) == wantFail[k]
+						}
+						env.Delete(fresh1)
+						env.Delete(fresh2)
+						if !ok {
+							mu.Lock()
+							badC = append(badC, fmt.Sprintf("caller %d Symlink: err=%v results=%v", g, err, errs))
+							mu.Unlock()
+						}
+					}
+				}
+			}(g)
+		}
+		wg.Wait()
+		for i := 0; i < 8*perCaller; i++ {
+			res.Case(fmt.Sprintf("concurrent batch %d", i), true, "concurrent-batch")
+		}
+		if len(badC) > 0 {
+			res.Mismatch(Mismatch{Kind: "oracle", What: "concurrent Open/Symlink batches on one environment: a result does not belong to its own item (C14 index alignment; failing items must not affect others)", Input: fmt.Sprintf("8 callers x %d batches of 4 items", perCaller), Impl: strings.Join(badC[:min(len(badC), 3)], " || "), Oracle: "violates"})
+		}
+		if e := env.Ping(); e != nil {
+			res.Mismatch(Mismatch{Kind: "oracle", What: "environment unusable after concurrent batches", Impl: e.Error(), Oracle: "violates"})
 		}
 	}
 
